@@ -19,10 +19,12 @@ Record odeliv := { od_inst : nat; od_type : nat; od_agg : bool; od_elems : list 
 Inductive ofinal := FAlive | FCrashed | FHung.
 
 (* registrations of the harness protocol (nodeh.go): type 0 is the harness's
-   fence; 7 is a type the protocol does not register *)
+   fence; 7 is a type the protocol does not register; 8 and 9 are aggregated
+   channels of capacity 1 and 2 (4 and 6 have capacity 100) *)
 Definition std_regs : regs :=
   [(0, (Handler, false)); (1, (Handler, false)); (2, (Handler, true));
-   (3, (Channel, false)); (4, (Channel, true)); (5, (Handler, true)); (6, (Channel, true))].
+   (3, (Channel, false)); (4, (Channel, true)); (5, (Handler, true)); (6, (Channel, true));
+   (8, (Channel, true)); (9, (Channel, true))].
 
 Definition proj_elem (e : elem) : oelem :=
   match e with
